@@ -1106,6 +1106,26 @@ where
     }
 }
 
+/// Access to the private constructor and representation, for verification harnesses only.
+#[cfg(brood_verif)]
+impl<Registry, Resources> World<Registry, Resources>
+where
+    Registry: registry::Registry,
+{
+    pub(crate) fn verif_from_raw_parts(
+        archetypes: Archetypes<Registry>,
+        entity_allocator: entity::Allocator<Registry>,
+        len: usize,
+        resources: Resources,
+    ) -> Self {
+        Self::from_raw_parts(archetypes, entity_allocator, len, resources)
+    }
+
+    pub(crate) fn verif_resources(&self) -> &Resources {
+        &self.resources
+    }
+}
+
 #[cfg(test)]
 mod tests {
     use super::World;
